@@ -36,7 +36,49 @@ const (
 	// name and a bare name resolves to the first join column
 	// -> signature star_duplicate_using_column.
 	avoidKnownStarDuplicateUsingColumn = true
+	// The grammar of a comma separated FROM list only continues after a
+	// subquery item (parser.y joinable_tables lacks `table ',' joinable_tables`):
+	// FROM t1, t2, t3 is a syntax error although the manual documents
+	// FROM table [, {table|LATERAL laterable_table} ...]
+	// -> signature from_comma_list_syntax_error.
+	avoidKnownCommaListSyntax = true
 )
+
+// commaListDefectShape: some FROM list has an item that is neither the first
+// nor the last and is not a subquery.
+func commaListDefectShape(q *ref.SelQuery) bool {
+	if q == nil {
+		return false
+	}
+	for i := 1; i+1 < len(q.From); i++ {
+		if q.From[i].Kind != "sub" {
+			return true
+		}
+	}
+	var inSource func(s *ref.SelSource) bool
+	inSource = func(s *ref.SelSource) bool {
+		switch {
+		case s == nil:
+			return false
+		case s.Kind == "sub":
+			return commaListDefectShape(s.Sub)
+		case s.Kind == "join":
+			return inSource(s.Left) || inSource(s.Right)
+		}
+		return false
+	}
+	for _, s := range q.From {
+		if inSource(s) {
+			return true
+		}
+	}
+	for _, c := range q.With {
+		if commaListDefectShape(c.Query) || commaListDefectShape(c.Step) {
+			return true
+		}
+	}
+	return false
+}
 
 // ---------------------------------------------------------------------
 // case
@@ -687,8 +729,14 @@ func (g *genCtx) query(depth int, outer []ref.SelCol, needLabels bool) (*ref.Sel
 		var s *ref.SelSource
 		var c []ref.SelCol
 		var v map[string]int
+		middle := i > 0 && i+1 < len(items)
+		if middle && avoidKnownCommaListSyntax && depth >= g.maxDepth {
+			continue
+		}
 		if i > 0 && depth < g.maxDepth && fw.Pct(g.t, "commaLateral", 30) {
 			s, c, v = g.subquery(depth, concatCols(cols, outer), true)
+		} else if middle && avoidKnownCommaListSyntax {
+			s, c, v = g.subquery(depth, nil, false)
 		} else {
 			s, c, v = g.fromItem(depth, n, outer, depth == 0 && i == 0)
 		}
@@ -1144,7 +1192,8 @@ func checkCase(c selCase) (fw.Outcome, *fw.Violation) {
 		fw.AddExtra("discarded_right_using_spelling", 1)
 		return o, nil
 	}
-	if (avoidKnownLateralEmptyLeft && st.LateralEmptyLeft) || (avoidKnownStarDuplicateUsingColumn && st.DupJoinStar) {
+	commaDefect := commaListDefectShape(c.Query)
+	if (avoidKnownLateralEmptyLeft && st.LateralEmptyLeft) || (avoidKnownStarDuplicateUsingColumn && st.DupJoinStar) || (avoidKnownCommaListSyntax && commaDefect) {
 		o.Discard = true
 		fw.AddExtra("discarded_known_defect_shape", 1)
 		return o, nil
@@ -1181,6 +1230,9 @@ func checkCase(c selCase) (fw.Outcome, *fw.Violation) {
 	if atomic.LoadInt64(&query.VerifParallelTasks) > par0 {
 		o.Classes = append(o.Classes, "parallel")
 		fw.AddExtra("parallel_cases", 1)
+	}
+	if res.ParseErr && commaDefect {
+		return o, fw.V("from_comma_list_syntax_error", "%s: %v", sql, res.Err)
 	}
 	if res.ParseErr {
 		return o, fw.Harness("generated query does not parse: %s: %v", sql, res.Err)
@@ -1250,7 +1302,7 @@ func TestC03Select(t *testing.T) {
 			"merged columns: COALESCE(left, right), first in USING/left-side order, then the remaining left and right columns (SQL standard; the manual is silent); for RIGHT joins the spelling of a merged value that differs between the sides is not asserted (case discarded)",
 			"NATURAL JOIN without common columns is a join without condition (every pair matches)",
 			"recursive CTEs only in forms that terminate by a bound on a counter column and use UNION ALL",
-			fmt.Sprintf("cases of reported defect shapes are put aside while these are true: avoidKnownLateralEmptyLeft=%v avoidKnownStarDuplicateUsingColumn=%v", avoidKnownLateralEmptyLeft, avoidKnownStarDuplicateUsingColumn),
+			fmt.Sprintf("cases of reported defect shapes are put aside while these are true: avoidKnownLateralEmptyLeft=%v avoidKnownStarDuplicateUsingColumn=%v avoidKnownCommaListSyntax=%v", avoidKnownLateralEmptyLeft, avoidKnownStarDuplicateUsingColumn, avoidKnownCommaListSyntax),
 		},
 	})
 }
